@@ -584,6 +584,14 @@ def _int_constants_in_returns(prog, fn):
                 for n in ast.walk(e):
                     if isinstance(n, ast.Name):
                         names.add(n.id)
+                        # a constant named directly in the returned tuple (`(v, TAG_A if c else TAG_B)`)
+                        try:
+                            v0 = prog.fold(fn._module, n)
+                            if isinstance(v0, int) and not isinstance(v0, bool) and not any(
+                                    isinstance(x, ast.Name) and x.id == n.id and isinstance(x.ctx, ast.Store) for x in ast.walk(fn)):
+                                out.add(v0)
+                        except NotConst:
+                            pass
     # locals assigned from constant choices:  t = A if cond else B
     for st in walk_no_nested(fn):
         if isinstance(st, ast.Assign) and isinstance(st.targets[0], ast.Name) and st.targets[0].id in names:
